@@ -282,7 +282,31 @@ pub fn apply_edit(cx: &mut Cx, nm: &mut Namer, file: &mut A2lFile) -> Option<Str
     }
     let mi = cx.tape.draw(file.project.module.len() as u64) as usize;
     let module = &mut file.project.module[mi];
-    match cx.tape.draw(10) {
+    match cx.tape.draw(11) {
+        10 => {
+            // remove the element that is written last in its MODULE (highest position id among the lists below)
+            macro_rules! last_of {
+                ($best:ident, $($list:ident),*) => { $(
+                    if let Some((i, e)) = module.$list.iter().enumerate().max_by_key(|(_, e)| e.get_layout().uid) {
+                        let uid = e.get_layout().uid;
+                        if uid > $best.0 {
+                            $best = (uid, stringify!($list), i);
+                        }
+                    }
+                )* };
+            }
+            let mut best: (u32, &str, usize) = (0, "", 0);
+            last_of!(best, measurement, characteristic, compu_method, group, function, unit, record_layout, compu_vtab, axis_pts, compu_tab, compu_vtab_range, frame, instance, blob, transformer, typedef_axis, typedef_blob, typedef_characteristic, typedef_measurement, typedef_structure);
+            if best.0 == 0 {
+                return None;
+            }
+            nm.order_disturbed = true;
+            macro_rules! remove_at {
+                ($($list:ident),*) => { match best.1 { $( stringify!($list) => module.$list.swap_remove_idx(best.2).map(|e| e.get_name().to_string()), )* _ => None } };
+            }
+            let name = remove_at!(measurement, characteristic, compu_method, group, function, unit, record_layout, compu_vtab, axis_pts, compu_tab, compu_vtab_range, frame, instance, blob, transformer, typedef_axis, typedef_blob, typedef_characteristic, typedef_measurement, typedef_structure);
+            Some(format!("remove the last element of the module: {} {}", best.1, name.unwrap_or_default()))
+        }
         0..=2 => Some(push_new(cx, nm, module)),
         3 => {
             let n = module.measurement.len();
@@ -306,21 +330,45 @@ pub fn apply_edit(cx: &mut Cx, nm: &mut Namer, file: &mut A2lFile) -> Option<Str
             Some(format!("edit CHARACTERISTIC[{i}].address, upper_limit"))
         }
         5 => {
-            let n = module.measurement.len();
-            if n == 0 {
-                return None;
+            // remove one element from one of the MODULE-level lists (pop, swap_remove by index or by name)
+            macro_rules! remove_from {
+                ($list:expr, $kind:expr) => {{
+                    let n = $list.len();
+                    if n == 0 {
+                        None
+                    } else {
+                        let i = cx.tape.draw(n as u64) as usize;
+                        nm.order_disturbed = true;
+                        let removed = match cx.tape.draw(3) {
+                            0 => $list.pop(),
+                            1 => $list.swap_remove_idx(i),
+                            _ => {
+                                let name = $list[i].get_name().to_string();
+                                $list.swap_remove(&name)
+                            }
+                        };
+                        Some(format!("remove {} {}", $kind, removed.map(|m| m.get_name().to_string()).unwrap_or_default()))
+                    }
+                }};
             }
-            let i = cx.tape.draw(n as u64) as usize;
-            nm.order_disturbed = true;
-            let removed = match cx.tape.draw(3) {
-                0 => module.measurement.pop(),
-                1 => module.measurement.swap_remove_idx(i),
-                _ => {
-                    let name = module.measurement[i].get_name().to_string();
-                    module.measurement.swap_remove(&name)
+            let start = cx.tape.draw(8);
+            let mut res = None;
+            for off in 0..8 {
+                res = match (start + off) % 8 {
+                    0 => remove_from!(module.measurement, "MEASUREMENT"),
+                    1 => remove_from!(module.characteristic, "CHARACTERISTIC"),
+                    2 => remove_from!(module.compu_method, "COMPU_METHOD"),
+                    3 => remove_from!(module.group, "GROUP"),
+                    4 => remove_from!(module.function, "FUNCTION"),
+                    5 => remove_from!(module.unit, "UNIT"),
+                    6 => remove_from!(module.record_layout, "RECORD_LAYOUT"),
+                    _ => remove_from!(module.compu_vtab, "COMPU_VTAB"),
+                };
+                if res.is_some() {
+                    break;
                 }
-            };
-            Some(format!("remove MEASUREMENT {}", removed.map(|m| m.get_name().to_string()).unwrap_or_default()))
+            }
+            res
         }
         6 => {
             let n = module.measurement.len();
@@ -809,11 +857,13 @@ impl Scenario for C01Cycles {
                         // swap_remove changed the list order; the writer orders by position ids: compare up to the order of that list
                         let mut a = model.clone();
                         let mut b = m2.clone();
-                        for m in &mut a.project.module {
-                            m.measurement.sort_by(|x, y| x.get_name().cmp(y.get_name()));
-                        }
-                        for m in &mut b.project.module {
-                            m.measurement.sort_by(|x, y| x.get_name().cmp(y.get_name()));
+                        for file in [&mut a, &mut b] {
+                            for m in &mut file.project.module {
+                                macro_rules! canon {
+                                    ($($list:ident),*) => { $( m.$list.sort_by(|x, y| x.get_name().cmp(y.get_name())); )* };
+                                }
+                                canon!(measurement, characteristic, compu_method, group, function, unit, record_layout, compu_vtab, axis_pts, compu_tab, compu_vtab_range, frame, instance, blob, transformer, typedef_axis, typedef_blob, typedef_characteristic, typedef_measurement, typedef_structure);
+                            }
                         }
                         a == b
                     } else {
